@@ -16,23 +16,32 @@
 //	whiteSpace              var, map[rune]bool literal: its keys, source order; a `false`
 //	                        value is refused (the lexer tests key presence, not the value)
 //
-// parser.go: bp = var bindingPowers, a map[tokType]int literal, in source order.
-// An "rbp argument" is the sole argument X of a call p.parseExpression(X),
-// p.parseProjectionRHS(X) or p.parseDotRHS(X); X is an integer literal or
-// bindingPowers[tTok] (looked up in bp; a token absent from bp is 0).  Each
-// field below is the rbp argument of the ONLY such call in its scope (the whole
-// function body / case clause, nested blocks included):
+// With `-lexer-from FILE` lexer.go is not read: the four definitions are taken from FILE,
+// the output of `harness lexprobe`, which derives them by executing the library on every
+// code point (used by /verif/check when the literals above are gone).
 //
-//	projStop  parseProjectionRHS: first top-level `if`, cond `bindingPowers[id] < INT`
-//	led (the one `switch tokenType`), by case clause:
+// parser.go: bp = var bindingPowers, a map[tokType]int literal or an array literal keyed by
+// token constants, in source order (a token absent from it is 0).
+// An "rbp argument" is the sole argument X of a call p.parseExpression(X),
+// p.parseProjectionRHS(X) or p.parseDotRHS(X); X is an integer literal, bindingPowers[tTok],
+// or bindingPowers[TAG] where TAG is the expression the enclosing token switch dispatches on
+// (then it means the binding power of the clause's own token).  The "token switch" of nud /
+// led is the only switch in that function with a tag and at least four clauses all of whose
+// entries are token constants; its tag must not be reassigned.  A "scope" is a function body
+// or the case clause listing the token, TOGETHER WITH the bodies of the parser's helper
+// methods it calls (every method that is not one of the core functions named below), as if
+// inlined.  Each field is the rbp argument of the ONLY such call in its scope:
+//
+//	projStop  the only comparison `bindingPowers[<identifier that is not a token>] < INT`
+//	          in parseProjectionRHS
+//	led, by the clause listing the token:
 //	  tDot: parseDotRHS -> ledDotSub, parseProjectionRHS -> ledDotStar
 //	  tPipe / tOr / tAnd: parseExpression -> ledPipe / ledOr / ledAnd
 //	  tFlatten: parseProjectionRHS -> ledFlatten; tLbracket: same -> ledBracketStar
-//	  the clause listing exactly {tEQ,tNE,tGT,tGTE,tLT,tLTE}: parseExpression -> ledCmp,
-//	  one pair per listed token in listed order; X = bindingPowers[tokenType]
-//	  means "bp of that token", anything else the same value for all
+//	  tEQ,tNE,tGT,tGTE,tLT,tLTE: parseExpression -> ledCmp, one pair per token (in the
+//	  clause's order when one clause lists exactly these six)
 //	parseFunctionArg: exactly two parseExpression calls -> ledArg, ledArgExpref
-//	nud (the one `switch token.tokenType`), by case clause:
+//	nud, by the clause listing the token:
 //	  tStar / tFlatten / tLbracket: parseProjectionRHS -> nudStar / nudFlatten / nudBracketStar
 //	  tNot / tLparen: parseExpression -> nudNot / nudParen
 //	parseMultiSelectList, parseMultiSelectHash: parseExpression -> msList, msHash
@@ -266,29 +275,75 @@ type parserTable struct {
 	fields []string          // rendered `name := value`, in output order
 }
 
-// rbpArgs returns the argument of every call <ident>.<callee>(X) inside scope.
+// coreFuncs are the parser functions the model has one definition each for; every other method
+// of the parser is a helper whose body is read as if written at its call sites.
+var coreFuncs = map[string]bool{"parseExpression": true, "parseProjectionRHS": true, "parseDotRHS": true,
+	"parseMultiSelectList": true, "parseMultiSelectHash": true, "parseFilter": true, "projectIfSlice": true,
+	"parseIndexExpression": true, "parseSliceExpression": true, "parseFunctionArg": true, "nud": true, "led": true,
+	"Parse": true, "parse": true, "current": true, "lookahead": true, "advance": true, "match": true,
+	"syntaxError": true, "syntaxErrorToken": true, "lookaheadToken": true}
+
+var parserFile *ast.File
+
+func helperBody(name string) *ast.BlockStmt {
+	if coreFuncs[name] || parserFile == nil {
+		return nil
+	}
+	var found *ast.BlockStmt
+	for _, d := range parserFile.Decls {
+		if fd, ok := d.(*ast.FuncDecl); ok && fd.Name.Name == name && fd.Body != nil && fd.Recv != nil {
+			if found != nil {
+				return nil
+			}
+			found = fd.Body
+		}
+	}
+	return found
+}
+
+// rbpArgs returns the argument of every call <ident>.<callee>(X) inside scope, and inside the
+// bodies of the helper methods scope calls (transitively).
 func rbpArgs(scope ast.Node, callee, what string) []ast.Expr {
 	var args []ast.Expr
-	ast.Inspect(scope, func(n ast.Node) bool {
-		c, ok := n.(*ast.CallExpr)
-		if !ok {
+	visited := map[string]bool{}
+	var walk func(n ast.Node)
+	walk = func(scope ast.Node) {
+		ast.Inspect(scope, func(n ast.Node) bool {
+			c, ok := n.(*ast.CallExpr)
+			if !ok {
+				return true
+			}
+			sel, ok := c.Fun.(*ast.SelectorExpr)
+			if !ok {
+				return true
+			}
+			if _, recv := sel.X.(*ast.Ident); recv && sel.Sel.Name != callee && !visited[sel.Sel.Name] {
+				if hb := helperBody(sel.Sel.Name); hb != nil {
+					visited[sel.Sel.Name] = true
+					walk(hb)
+				}
+			}
+			if sel.Sel.Name != callee {
+				return true
+			}
+			if _, recv := sel.X.(*ast.Ident); !recv || len(c.Args) != 1 || c.Ellipsis.IsValid() {
+				die(what, "call `%s` at %s is not <receiver>.%s(<one argument>)", src(c), at(c), callee)
+			}
+			args = append(args, c.Args[0])
 			return true
-		}
-		sel, ok := c.Fun.(*ast.SelectorExpr)
-		if !ok || sel.Sel.Name != callee {
-			return true
-		}
-		if _, recv := sel.X.(*ast.Ident); !recv || len(c.Args) != 1 || c.Ellipsis.IsValid() {
-			die(what, "call `%s` at %s is not <receiver>.%s(<one argument>)", src(c), at(c), callee)
-		}
-		args = append(args, c.Args[0])
-		return true
-	})
+		})
+	}
+	walk(scope)
 	return args
 }
 
-func (t *parserTable) resolve(x ast.Expr, what string) uint64 {
+// resolve evaluates an rbp argument: an integer literal, bindingPowers[tTok], or bindingPowers[<tag>]
+// where <tag> is the expression the enclosing token switch dispatches on and cur the clause's token.
+func (t *parserTable) resolve(x ast.Expr, tag, cur, what string) uint64 {
 	if ix, ok := x.(*ast.IndexExpr); ok && src(ix.X) == "bindingPowers" {
+		if tag != "" && cur != "" && src(ix.Index) == tag {
+			return t.bpOf[cur]
+		}
 		named(ix.Index, tokNames, what)
 		return t.bpOf[src(ix.Index)] // absent -> 0, as Go's map lookup
 	}
@@ -296,63 +351,96 @@ func (t *parserTable) resolve(x ast.Expr, what string) uint64 {
 }
 
 // one resolves the rbp argument of the only `callee` call inside scope.
-func (t *parserTable) one(scope ast.Node, callee, what string) uint64 {
+func (t *parserTable) one(scope ast.Node, callee, tag, cur, what string) uint64 {
 	what = what + ": " + callee + " call"
 	args := rbpArgs(scope, callee, what)
 	if len(args) != 1 {
 		die(what, "expected exactly one in this scope (starting %s), found %d", at(scope), len(args))
 	}
-	return t.resolve(args[0], what)
+	return t.resolve(args[0], tag, cur, what)
 }
 
 func (t *parserTable) set(field string, v uint64) {
 	t.fields = append(t.fields, fmt.Sprintf("%s := %d", field, v))
 }
 
-// switchOn finds the only switch statement in body whose tag prints as tag.
-func switchOn(body *ast.BlockStmt, tag, what string) *ast.SwitchStmt {
+// tokenSwitch finds the only switch statement in body that dispatches on a token type: a tag
+// expression, and at least four case clauses all of whose entries are token names.
+func tokenSwitch(body *ast.BlockStmt, what string) *ast.SwitchStmt {
 	var found []*ast.SwitchStmt
 	ast.Inspect(body, func(n ast.Node) bool {
-		if s, ok := n.(*ast.SwitchStmt); ok && s.Tag != nil && s.Init == nil && src(s.Tag) == tag {
+		s, ok := n.(*ast.SwitchStmt)
+		if !ok || s.Tag == nil || s.Init != nil {
+			return true
+		}
+		clauses := 0
+		for _, st := range s.Body.List {
+			c := st.(*ast.CaseClause)
+			for _, e := range c.List {
+				if _, isTok := tokNames[src(e)]; !isTok {
+					return true
+				}
+			}
+			if len(c.List) > 0 {
+				clauses++
+			}
+		}
+		if clauses >= 4 {
 			found = append(found, s)
 		}
 		return true
 	})
 	if len(found) != 1 {
-		die(what, "expected exactly one `switch %s`, found %d", tag, len(found))
+		die(what, "expected exactly one switch over token types, found %d", len(found))
 	}
+	tag := src(found[0].Tag)
+	ast.Inspect(body, func(n ast.Node) bool {
+		switch a := n.(type) {
+		case *ast.AssignStmt:
+			for _, l := range a.Lhs {
+				if src(l) == tag && a.Tok != token.DEFINE {
+					die(what, "`%s` is reassigned at %s", tag, at(a))
+				}
+			}
+		case *ast.IncDecStmt:
+			if src(a.X) == tag {
+				die(what, "`%s` is modified at %s", tag, at(a))
+			}
+		}
+		return true
+	})
 	return found[0]
 }
 
-// clause finds the only case clause whose token list is, as a set, exactly toks.
-func clause(sw *ast.SwitchStmt, what string, toks ...string) *ast.CaseClause {
+// clause finds the only case clause that lists tok.
+func clause(sw *ast.SwitchStmt, what string, tok string) *ast.CaseClause {
 	var found []*ast.CaseClause
 	for _, s := range sw.Body.List {
 		c := s.(*ast.CaseClause)
-		hits := 0
 		for _, e := range c.List {
-			for _, tk := range toks {
-				if src(e) == tk {
-					hits++
-				}
+			if src(e) == tok {
+				found = append(found, c)
 			}
-		}
-		if hits > 0 && (hits != len(toks) || len(c.List) != len(toks)) {
-			die(what, "case clause at %s lists %s together with, or without, other tokens", at(c), strings.Join(toks, ","))
-		}
-		if hits > 0 {
-			found = append(found, c)
 		}
 	}
 	if len(found) != 1 {
-		die(what, "expected exactly one `case %s:` clause, found %d", strings.Join(toks, ", "), len(found))
+		die(what, "expected exactly one case clause listing %s, found %d", tok, len(found))
 	}
 	return found[0]
 }
 
 func extractParser(f *ast.File) *parserTable {
+	parserFile = f
 	t := &parserTable{bpOf: map[string]uint64{}}
-	for _, e := range lit(topValue(f, token.VAR, "bindingPowers"), "map[tokType]int", false, "bindingPowers") {
+	bpLit, _ := topValue(f, token.VAR, "bindingPowers").(*ast.CompositeLit)
+	if bpLit == nil {
+		die("bindingPowers", "not a composite literal")
+	}
+	_, isArr := bpLit.Type.(*ast.ArrayType)
+	if !(bpLit.Type != nil && (src(bpLit.Type) == "map[tokType]int" || isArr)) {
+		die("bindingPowers", "composite literal at %s is neither map[tokType]int nor an array keyed by token", at(bpLit))
+	}
+	for _, e := range bpLit.Elts {
 		k, v := kv(e, "bindingPowers")
 		tok := named(k, tokNames, "bindingPowers key")
 		if _, dup := t.bpOf[src(k)]; dup {
@@ -362,81 +450,73 @@ func extractParser(f *ast.File) *parserTable {
 		t.bp = append(t.bp, fmt.Sprintf("(%s, %d)", tok, t.bpOf[src(k)]))
 	}
 
-	var firstIf *ast.IfStmt
-	for _, s := range funcBody(f, "parseProjectionRHS").List {
-		if is, ok := s.(*ast.IfStmt); ok && firstIf == nil {
-			firstIf = is
-		}
-	}
-	if firstIf == nil {
-		die("projStop", "parseProjectionRHS has no top-level if statement")
-	}
-	cond, _ := firstIf.Cond.(*ast.BinaryExpr)
-	understood := false
-	if cond != nil && cond.Op == token.LSS && firstIf.Init == nil {
-		if ix, ok := cond.X.(*ast.IndexExpr); ok && src(ix.X) == "bindingPowers" {
-			_, understood = ix.Index.(*ast.Ident)
-		}
-	}
-	if !understood {
-		die("projStop", "condition `%s` at %s is not `bindingPowers[<ident>] < <int>`", src(firstIf.Cond), at(firstIf))
-	}
-	t.set("projStop", intLit(cond.Y, "projStop"))
-
-	led := switchOn(funcBody(f, "led"), "tokenType", "led")
-	dot := clause(led, "led", "tDot")
-	t.set("ledDotSub", t.one(dot, "parseDotRHS", "led case tDot"))
-	t.set("ledDotStar", t.one(dot, "parseProjectionRHS", "led case tDot"))
-	t.set("ledPipe", t.one(clause(led, "led", "tPipe"), "parseExpression", "led case tPipe"))
-	t.set("ledOr", t.one(clause(led, "led", "tOr"), "parseExpression", "led case tOr"))
-	t.set("ledAnd", t.one(clause(led, "led", "tAnd"), "parseExpression", "led case tAnd"))
-	arg := rbpArgs(funcBody(f, "parseFunctionArg"), "parseExpression", "parseFunctionArg")
-	if len(arg) != 2 {
-		die("parseFunctionArg", "expected exactly two parseExpression calls, found %d", len(arg))
-	}
-	t.set("ledArg", t.resolve(arg[0], "parseFunctionArg: first parseExpression call"))
-	t.set("ledArgExpref", t.resolve(arg[1], "parseFunctionArg: second parseExpression call"))
-	t.set("ledFlatten", t.one(clause(led, "led", "tFlatten"), "parseProjectionRHS", "led case tFlatten"))
-
-	cmp := clause(led, "led comparators", cmpToks...)
-	args := rbpArgs(cmp, "parseExpression", "led comparator case")
-	if len(args) != 1 {
-		die("led comparator case: parseExpression call", "expected exactly one, found %d", len(args))
-	}
-	ast.Inspect(cmp, func(n ast.Node) bool {
-		if a, ok := n.(*ast.AssignStmt); ok {
-			for _, l := range a.Lhs {
-				if src(l) == "tokenType" {
-					die("led comparator case", "tokenType is reassigned at %s", at(a))
+	// projStop: the only comparison `bindingPowers[<ident>] < <int>` in parseProjectionRHS
+	var stops []*ast.BinaryExpr
+	ast.Inspect(funcBody(f, "parseProjectionRHS"), func(n ast.Node) bool {
+		if b, ok := n.(*ast.BinaryExpr); ok && b.Op == token.LSS {
+			if ix, ok := b.X.(*ast.IndexExpr); ok && src(ix.X) == "bindingPowers" {
+				if _, isIdent := ix.Index.(*ast.Ident); isIdent {
+					if _, isTok := tokNames[src(ix.Index)]; !isTok {
+						stops = append(stops, b)
+					}
 				}
 			}
 		}
 		return true
 	})
-	var cmps []string
-	for _, e := range cmp.List {
-		v := t.bpOf[src(e)]
-		if src(args[0]) != "bindingPowers[tokenType]" {
-			v = t.resolve(args[0], "led comparator case: parseExpression call")
+	if len(stops) != 1 {
+		die("projStop", "expected exactly one comparison `bindingPowers[<current token>] < <int>` in parseProjectionRHS, found %d", len(stops))
+	}
+	t.set("projStop", intLit(stops[0].Y, "projStop"))
+
+	led := tokenSwitch(funcBody(f, "led"), "led")
+	ltag := src(led.Tag)
+	dot := clause(led, "led", "tDot")
+	t.set("ledDotSub", t.one(dot, "parseDotRHS", ltag, "tDot", "led case tDot"))
+	t.set("ledDotStar", t.one(dot, "parseProjectionRHS", ltag, "tDot", "led case tDot"))
+	t.set("ledPipe", t.one(clause(led, "led", "tPipe"), "parseExpression", ltag, "tPipe", "led case tPipe"))
+	t.set("ledOr", t.one(clause(led, "led", "tOr"), "parseExpression", ltag, "tOr", "led case tOr"))
+	t.set("ledAnd", t.one(clause(led, "led", "tAnd"), "parseExpression", ltag, "tAnd", "led case tAnd"))
+	arg := rbpArgs(funcBody(f, "parseFunctionArg"), "parseExpression", "parseFunctionArg")
+	if len(arg) != 2 {
+		die("parseFunctionArg", "expected exactly two parseExpression calls, found %d", len(arg))
+	}
+	t.set("ledArg", t.resolve(arg[0], "", "", "parseFunctionArg: first parseExpression call"))
+	t.set("ledArgExpref", t.resolve(arg[1], "", "", "parseFunctionArg: second parseExpression call"))
+	t.set("ledFlatten", t.one(clause(led, "led", "tFlatten"), "parseProjectionRHS", ltag, "tFlatten", "led case tFlatten"))
+
+	// comparators: in the order their clause lists them when they share one clause (the usual
+	// case), otherwise in the fixed order of cmpToks
+	order := cmpToks
+	first := clause(led, "led comparators", cmpToks[0])
+	if len(first.List) == len(cmpToks) {
+		order = nil
+		for _, e := range first.List {
+			order = append(order, src(e))
 		}
-		cmps = append(cmps, fmt.Sprintf("(%s, %d)", named(e, tokNames, "led comparator case"), v))
+	}
+	var cmps []string
+	for _, tk := range order {
+		c := clause(led, "led comparators", tk)
+		cmps = append(cmps, fmt.Sprintf("(%s, %d)", tokNames[tk], t.one(c, "parseExpression", ltag, tk, "led comparator case "+tk)))
 	}
 	t.fields = append(t.fields, "ledCmp := ["+strings.Join(cmps, ", ")+"]")
-	t.set("ledBracketStar", t.one(clause(led, "led", "tLbracket"), "parseProjectionRHS", "led case tLbracket"))
+	t.set("ledBracketStar", t.one(clause(led, "led", "tLbracket"), "parseProjectionRHS", ltag, "tLbracket", "led case tLbracket"))
 
-	nud := switchOn(funcBody(f, "nud"), "token.tokenType", "nud")
-	t.set("nudStar", t.one(clause(nud, "nud", "tStar"), "parseProjectionRHS", "nud case tStar"))
-	t.set("nudFlatten", t.one(clause(nud, "nud", "tFlatten"), "parseProjectionRHS", "nud case tFlatten"))
-	t.set("nudBracketStar", t.one(clause(nud, "nud", "tLbracket"), "parseProjectionRHS", "nud case tLbracket"))
-	t.set("nudNot", t.one(clause(nud, "nud", "tNot"), "parseExpression", "nud case tNot"))
-	t.set("nudParen", t.one(clause(nud, "nud", "tLparen"), "parseExpression", "nud case tLparen"))
+	nud := tokenSwitch(funcBody(f, "nud"), "nud")
+	ntag := src(nud.Tag)
+	t.set("nudStar", t.one(clause(nud, "nud", "tStar"), "parseProjectionRHS", ntag, "tStar", "nud case tStar"))
+	t.set("nudFlatten", t.one(clause(nud, "nud", "tFlatten"), "parseProjectionRHS", ntag, "tFlatten", "nud case tFlatten"))
+	t.set("nudBracketStar", t.one(clause(nud, "nud", "tLbracket"), "parseProjectionRHS", ntag, "tLbracket", "nud case tLbracket"))
+	t.set("nudNot", t.one(clause(nud, "nud", "tNot"), "parseExpression", ntag, "tNot", "nud case tNot"))
+	t.set("nudParen", t.one(clause(nud, "nud", "tLparen"), "parseExpression", ntag, "tLparen", "nud case tLparen"))
 
-	t.set("msList", t.one(funcBody(f, "parseMultiSelectList"), "parseExpression", "parseMultiSelectList"))
-	t.set("msHash", t.one(funcBody(f, "parseMultiSelectHash"), "parseExpression", "parseMultiSelectHash"))
-	t.set("sliceProj", t.one(funcBody(f, "projectIfSlice"), "parseProjectionRHS", "projectIfSlice"))
-	t.set("filterCond", t.one(funcBody(f, "parseFilter"), "parseExpression", "parseFilter"))
-	t.set("filterRhs", t.one(funcBody(f, "parseFilter"), "parseProjectionRHS", "parseFilter"))
-	t.set("top", t.one(funcBody(f, "Parse"), "parseExpression", "Parse"))
+	t.set("msList", t.one(funcBody(f, "parseMultiSelectList"), "parseExpression", "", "", "parseMultiSelectList"))
+	t.set("msHash", t.one(funcBody(f, "parseMultiSelectHash"), "parseExpression", "", "", "parseMultiSelectHash"))
+	t.set("sliceProj", t.one(funcBody(f, "projectIfSlice"), "parseProjectionRHS", "", "", "projectIfSlice"))
+	t.set("filterCond", t.one(funcBody(f, "parseFilter"), "parseExpression", "", "", "parseFilter"))
+	t.set("filterRhs", t.one(funcBody(f, "parseFilter"), "parseProjectionRHS", "", "", "parseFilter"))
+	t.set("top", t.one(funcBody(f, "Parse"), "parseExpression", "", "", "Parse"))
 	return t
 }
 
@@ -507,21 +587,8 @@ func extractFunctions(f *ast.File) []string {
 
 // ---- main -----------------------------------------------------------------------
 
-func main() {
-	dir, outPath := "/repo", "/verif/lean/Jmes/Generated.lean"
-	if len(os.Args) > 3 {
-		die("command line", "usage: extract [repo-dir [output.lean]]")
-	}
-	if len(os.Args) > 1 {
-		dir = os.Args[1]
-	}
-	if len(os.Args) > 2 {
-		outPath = os.Args[2]
-	}
+func extractLexer(dir string) string {
 	lexer := parseFile(dir, "lexer.go", "identifierTrailingBits", "basicTokens", "whiteSpace")
-	parserF := parseFile(dir, "parser.go", "bindingPowers")
-	funcs := parseFile(dir, "functions.go")
-
 	var trailing, basic, white []string
 	for _, e := range lit(topValue(lexer, token.VAR, "identifierTrailingBits"), "", false, "identifierTrailingBits") {
 		trailing = append(trailing, fmt.Sprint(intLit(e, "identifierTrailingBits")))
@@ -544,16 +611,64 @@ func main() {
 		}
 		white = append(white, fmt.Sprint(runeLit(k, "whiteSpace key")))
 	}
+	var b strings.Builder
+	fmt.Fprintf(&b, "def identifierStartBits : Nat := %d\n", intLit(topValue(lexer, token.CONST, "identifierStartBits"), "identifierStartBits"))
+	fmt.Fprintf(&b, "def identifierTrailingBits : List Nat := [%s]\n", strings.Join(trailing, ", "))
+	fmt.Fprintf(&b, "def basicTokens : List (Nat × TokType) := [%s]\n", strings.Join(basic, ", "))
+	fmt.Fprintf(&b, "def whiteSpace : List Nat := [%s]\n\n", strings.Join(white, ", "))
+	return b.String()
+}
+
+func main() {
+	dir, outPath := "/repo", "/verif/lean/Jmes/Generated.lean"
+	args := os.Args[1:]
+	lexerFrom := ""
+	if len(args) >= 2 && args[0] == "-lexer-from" {
+		lexerFrom, args = args[1], args[2:]
+	}
+	if len(args) > 2 {
+		die("command line", "usage: extract [-lexer-from file] [repo-dir [output.lean]]")
+	}
+	if len(args) > 0 {
+		dir = args[0]
+	}
+	if len(args) > 1 {
+		outPath = args[1]
+	}
+	parserF := parseFile(dir, "parser.go", "bindingPowers")
+	funcs := parseFile(dir, "functions.go")
+
+	// The four lexer tables: read from the literals in lexer.go, or (-lexer-from) taken from the
+	// output of `harness lexprobe`, which derives them by exhaustive execution of the library.
+	var lexerDefs string
+	if lexerFrom != "" {
+		raw, err := ioutil.ReadFile(lexerFrom)
+		if err != nil {
+			die("-lexer-from", "%v", err)
+		}
+		lines := strings.Split(strings.TrimSpace(string(raw)), "\n")
+		prefixes := []string{"def identifierStartBits : Nat := ", "def identifierTrailingBits : List Nat := [",
+			"def basicTokens : List (Nat × TokType) := [", "def whiteSpace : List Nat := ["}
+		if len(lines) != len(prefixes) {
+			die("-lexer-from", "expected %d definitions, found %d lines", len(prefixes), len(lines))
+		}
+		for i, l := range lines {
+			if !strings.HasPrefix(l, prefixes[i]) {
+				die("-lexer-from", "line %d does not start with %q", i+1, prefixes[i])
+			}
+		}
+		lexerDefs = "-- lexer tables: derived by exhaustive execution (harness lexprobe); lexer.go no longer spells them as literals\n" +
+			strings.Join(lines, "\n") + "\n\n"
+	} else {
+		lexerDefs = extractLexer(dir)
+	}
 	pt := extractParser(parserF)
 
 	var b strings.Builder
 	// The header is a fixed string so that outputs from different source directories are comparable.
 	b.WriteString("-- GENERATED by /verif/tools/extract from /repo (working tree). Do not edit.\n")
 	b.WriteString("import Jmes.Token\nnamespace Jmes.Generated\nopen Jmes TokType JpType Handler\n\n")
-	fmt.Fprintf(&b, "def identifierStartBits : Nat := %d\n", intLit(topValue(lexer, token.CONST, "identifierStartBits"), "identifierStartBits"))
-	fmt.Fprintf(&b, "def identifierTrailingBits : List Nat := [%s]\n", strings.Join(trailing, ", "))
-	fmt.Fprintf(&b, "def basicTokens : List (Nat × TokType) := [%s]\n", strings.Join(basic, ", "))
-	fmt.Fprintf(&b, "def whiteSpace : List Nat := [%s]\n\n", strings.Join(white, ", "))
+	b.WriteString(lexerDefs)
 	fmt.Fprintf(&b, "def table : ParserTable := {\n  bp := [%s],\n  %s }\n\n", strings.Join(pt.bp, ", "), strings.Join(pt.fields, ",\n  "))
 	fmt.Fprintf(&b, "def functionTable : List FnEntry := [\n%s\n]\n\nend Jmes.Generated\n", strings.Join(extractFunctions(funcs), ",\n"))
 
